@@ -9,7 +9,8 @@ FUNCS = [RT + "BasicRayTracePath." + f for f in ("rho", "phi", "z0", "z1", "n0",
     [RT + "BasicRayTracer." + f for f in ("z0", "z1", "n0", "rho", "max_angle", "expected_solutions", "exists", "solutions", "direct_angle")] + \
     [RT + "SpecializedRayTracer." + f for f in ("_r_distance", "_direct_r", "_indirect_r", "direct_r_max")] + \
     [RT + "UniformRayTracer." + f for f in ("exists", "solutions", "_reflected_path", "rho", "phi")] + \
-    [RT + "UniformRayTracePath." + f for f in ("tof", "rho", "phi")]
+    [RT + "UniformRayTracePath." + f for f in ("tof", "rho", "phi")] + \
+    ["pyrex.custom.layered_ice.ray_tracing.LayeredRayTracer." + f for f in ("exists", "solutions")]
 
 
 def setup(rep):
@@ -29,10 +30,17 @@ def setup(rep):
                "follows from the symmetric two-leg form z0->z_turn, z1->z_turn (C01 composition clause)")
     rep.clause("reciprocity-attenuation", "N", "attenuation of gradient-index paths is a numerical quadrature (C03 gives its form only)")
     rep.clause("solution-count", "P", "gradient-index tracer: 0 or 2 solutions, exists iff the list is non-empty, none outside the ice; "
-               "uniform tracer: exists iff both points inside iff solutions non-empty")
+               "uniform tracer: exists iff both points inside iff solutions non-empty; layered tracer: exists iff its solution list "
+               "is non-empty (against the contract of `solutions`)")
     rep.clause("uniform-symmetry", "P", "uniform reflected path: reciprocity of length and tof using the C18 closed form as the contract "
                "of path_length; invariances follow from that closed form (function of rho and depths)")
-    rep.clause("layered-symmetry", "N", "layered tracer: 170-line numeric search (only exists == len(solutions) > 0, in C18)")
+    rep.clause("layered-symmetry", "N", "layered tracer: 170-line numeric scan over launch angles - outside the executor's subset; "
+               "translation/rotation invariance and reciprocity of stacks with gradient-index layers are not covered beyond the "
+               "one geometry of known finding D14")
+    rep.clause("layered-reciprocity-uniform-layers", "B", "LayeredRayTracer over three uniform layers: same number of solutions both "
+               "ways, equal tof and path length, directions exchanged and reversed, exists iff solutions - native sampling")
+    rep.clause("layered-reciprocity-gradient-layer", "B", "one fixed geometry (firn over uniform bulk) at which the solution count "
+               "is not reciprocal on the pinned tree: known finding D14; exists iff solutions must still hold there")
     rep.assume("A1, A2; A6 idealised brentq and determinism of the root search for identical arguments")
     rep.assume("contract of SpecializedRayTracePath._z_int_uniform_correction (function of its arguments, antisymmetric in the limits) is "
                "the one proved in C01 (uniform_correction_is_sum_of_regime_integrals)")
